@@ -969,6 +969,9 @@ func (s *SecureChannel) sendRequestWithTimeout(
 	ch, err := s.sendAsyncWithTimeout(ctx, req, reqID, instance, authToken, respRequired, timeout)
 	s.pendingReq.Done()
 	if err != nil {
+		// the handler may already be registered (the context ended, or encoding or
+		// writing failed after the registration): release the pending slot
+		s.popHandler(reqID)
 		return err
 	}
 
